@@ -148,14 +148,20 @@ def build_base(base):
             ents.append(b)
     elif base == "box_loft":
         b = cb.Box([0, 0, 0], [1, 1, 1])
-        for a, c in enumerate((2, 3, 4)):
+        for a, c in enumerate((2, 3)):
             b.chop(a, count=c)
+        b.chop(2, length_ratio=0.4, count=3, total_expansion=2.0)
+        b.chop(2, length_ratio=0.6, count=2, total_expansion=0.5)
         f1 = cb.Face([[1, 0, 0], [2.2, 0.1, 0], [2.1, 1.1, 0.1], [1, 1, 0]], [cb.Arc([1.6, -0.2, 0]), None, cb.Spline([[1.8, 1.2, 0.1], [1.4, 1.15, 0.05]]), None])
         f2 = cb.Face([[1, 0, 1], [2.1, 0.0, 1.1], [2.0, 1.0, 1.2], [1, 1, 1]])
         lo = cb.Loft(f1, f2)
         lo.add_side_edge(1, cb.PolyLine([[2.3, 0.05, 0.4], [2.25, 0.02, 0.8]]))
-        for a, c in enumerate((5, 3, 4)):
-            lo.chop(a, count=c)
+        # axis 0 of the loft is its own: size-preserving chops on four edges of different lengths give an
+        # edgeGrading entry whose 12 slots all differ; axis 2 (shared with the box) is multigraded
+        lo.chop(0, start_size=0.1, c2c_expansion=1.15, preserve="start_size")
+        lo.chop(1, count=3)
+        lo.chop(2, length_ratio=0.4, count=3, total_expansion=2.0)
+        lo.chop(2, length_ratio=0.6, count=2, total_expansion=0.5)
         ents += [b, lo]
     elif base == "cylinder":
         c = cb.Cylinder([0, 0, 0], [0, 0, 1.5], [0.7, 0, 0])
@@ -177,6 +183,14 @@ def build_base(base):
     for e in ents:
         ops += [e] if not hasattr(e, "operations") else list(e.operations)
     return ents, ops
+
+
+def _norm_sections(secs):
+    """blockMesh normalises the length and cell fractions of a multi-grading; a single section is its expansion only"""
+    if len(secs) == 1:
+        return [(1.0, 1.0, secs[0][2])]
+    ls, ns = sum(x[0] for x in secs), sum(x[1] for x in secs)
+    return [(x[0] / ls, x[1] / ns, x[2]) for x in secs]
 
 
 class Decl:
@@ -310,6 +324,21 @@ def run_case(case):
         if case["base"] in ("boxes",) or (case["base"] == "box_loft" and o == 0) or (case["base"] == "hemi_box" and o == len(ops) - 1):
             if blk["counts"] != [2, 3, 4] and case["base"] != "box_loft":
                 bad("hex-counts", f"operation {o}: {blk['counts']}, chopped (2 3 4)")
+        # counts and gradings: the model holds one grading per edge of the block (between two of its corners, in
+        # a direction); the hex entry lists them in blockMesh's slot order (mc.blockmesh_ref.EDGES)
+        mblk = mesh.blocks[pos]
+        items = blk["grading"] if blk["kind"] == "edgeGrading" else [blk["grading"][k // 4] for k in range(12)]
+        for k, (c1, c2) in enumerate(bm.EDGES):
+            wire = mblk.wires[c1][c2]
+            g = wire.grading if list(wire.corners) == [c1, c2] else wire.grading.inverted
+            if g.count != blk["counts"][k // 4]:
+                bad("hex-counts", f"operation {o}: edge {c1}-{c2} holds {g.count} cells, the entry says {blk['counts'][k // 4]}")
+                break
+            want = _norm_sections([tuple(float(x) for x in sp) for sp in g.specification])
+            got = _norm_sections(items[k])
+            if len(want) != len(got) or any(abs(a - b) > 1e-9 * max(1.0, abs(b)) for w, q in zip(want, got) for a, b in zip(q, w)):
+                bad("hex-gradings", f"operation {o}: edge {c1}-{c2} (slot {k}) is graded {want} in the model, written {got}")
+                break
     block_faces = set()
     block_edges = set()
     for blk in d["blocks"]:
